@@ -60,6 +60,50 @@ def apply(toks, au, opts):
             out += _call("vx_str_contains", [[Tok("p", "&", "")] + [_w(recv[0], "")] + recv[1:], [toks[i + 3]]], ws0)
             i += 5
             continue
+        # X.split(C).collect()  ->  vx_str_split_collect(X, C)
+        if is_p(t, ".") and is_id(toks[i + 1], "split") and is_p(toks[i + 2], "("):
+            k = match_close(toks, i + 2)
+            if texts(toks, k + 1, 4) == [".", "collect", "(", ")"]:
+                s = _expr_start(out)
+                recv = out[s:]
+                ws0 = recv[0].ws
+                del out[s:]
+                au.note("R", "X.split(c).collect() -> vx_str_split_collect(X, c)")
+                out += _call("vx_str_split_collect", [[_w(recv[0], "")] + recv[1:], toks[i + 3:k]], ws0)
+                i = k + 5
+                continue
+        # X.split_once(C)  ->  vx_str_split_once(X, C)
+        if is_p(t, ".") and is_id(toks[i + 1], "split_once") and is_p(toks[i + 2], "("):
+            k = match_close(toks, i + 2)
+            s = _expr_start(out)
+            recv = out[s:]
+            ws0 = recv[0].ws
+            del out[s:]
+            au.note("R", "X.split_once(c) -> vx_str_split_once(X, c)")
+            out += _call("vx_str_split_once", [[_w(recv[0], "")] + recv[1:], toks[i + 3:k]], ws0)
+            i = k + 1
+            continue
+        # rand::random_range(A..=B)  ->  vx_random_range_incl(A, B)
+        if is_id(t, "rand") and texts(toks, i + 1, 4) == [":", ":", "random_range", "("]:
+            k = match_close(toks, i + 4)
+            inner = toks[i + 5:k]
+            z = next((q for q in range(len(inner) - 2) if is_p(inner[q], ".") and is_p(inner[q + 1], ".") and is_p(inner[q + 2], "=")), None)
+            if z is None:
+                raise Undecided("rand::random_range over a non-inclusive range is outside the rewrite table")
+            au.note("R", "rand::random_range(a..=b) -> vx_random_range_incl(a, b)")
+            out += _call("vx_random_range_incl", [inner[:z], inner[z + 3:]], t.ws)
+            i = k + 1
+            continue
+        # X.to_vec()  ->  vx_slice_to_vec(X)
+        if is_p(t, ".") and is_id(toks[i + 1], "to_vec") and texts(toks, i + 2, 2) == ["(", ")"]:
+            s = _expr_start(out)
+            recv = out[s:]
+            ws0 = recv[0].ws
+            del out[s:]
+            au.note("R", "X.to_vec() -> vx_slice_to_vec(X)")
+            out += _call("vx_slice_to_vec", [[_w(recv[0], "")] + recv[1:]], ws0)
+            i += 4
+            continue
         # X.as_bytes()  ->  vx_as_bytes(&X)
         if is_p(t, ".") and is_id(toks[i + 1], "as_bytes") and texts(toks, i + 2, 2) == ["(", ")"]:
             s = _expr_start(out)
@@ -118,6 +162,15 @@ def apply(toks, au, opts):
             operand = toks[z + 8:e]
             au.note("R", "Instant::now() <= X -> Instant::now().vx_le(&X)")
             toks[z + 6:e] = [Tok("p", ".", ""), Tok("id", "vx_le", ""), Tok("p", "(", ""), Tok("p", "&", "")] + [_w(x, "" if q == 0 else x.ws) for q, x in enumerate(operand)] + [Tok("p", ")", "")]
+    # integer to_string named by the recipe:  tostring=pkt  ->  `pkt.to_string()` becomes vx_int_to_string(pkt as u64)
+    for nm in filter(None, opts.get("tostring", "").split(",")):
+        while True:
+            z = find_seq(toks, [nm, ".", "to_string", "(", ")"])
+            if z < 0:
+                break
+            au.note("R", f"{nm}.to_string() (integer) -> vx_int_to_string({nm} as u64)")
+            toks[z:z + 5] = toks_of(f"vx_int_to_string({nm} as u64)")
+            toks[z].ws = " "
     # type-directed rewrites named by the recipe:  strne=a:b  ->  `a != b` becomes vx_string_ne_str(a, b)
     for spec in filter(None, opts.get("strne", "").split(",")):
         a, b = spec.split(":")
